@@ -2,6 +2,7 @@ import UrcuVerif.Src.ForkLocal
 import UrcuVerif.Src.ForkExec
 import UrcuVerif.Src.ForkRefine
 import UrcuVerif.Src.ForkBpRefine
+import UrcuVerif.Src.ForkBpPrune
 /-!
 # Source refinement, component "fork hooks" (C16): generated IR of `call_rcu_before_fork` /
 `call_rcu_after_fork_parent` (`src/urcu-call-rcu-impl.h`) and of the urcu-bp handlers (`src/urcu-bp.c`) ⊑ L2
@@ -136,6 +137,19 @@ theorem call_rcu_after_fork_parent_refines (l : List Nat) (on : Bool) (fuel : Na
     tri_unfold (after_fork_parent_tri l on fuel) env inp ⟨.apFirst, l, on⟩ ⟨hhook, hi, rfl⟩
   exact ⟨out, ho, ls', hl, hc, fun h => by have := hq h; simp only [ApDone] at this; subst this; exact ⟨rfl, rfl⟩⟩
 
+/-- **`call_rcu_after_fork_child()`, PARTIAL: the path "call_rcu() has not been used"** (`cds_list_empty` answers true) from
+the child's entry state (L2 `afcUnlock`, set by `forkChild`; the inherited mutex is held): never fails; events
+`unlock ; listEmpty true` (L2 `afcUnlock ; afcNone`); the call returns at `idle` having written nothing.  The other path
+(re-creation of the default helper, disposal of the stale ones) is NOT proved: see the report (the IR renders
+`rcu_set_pointer(&default_call_rcu_data, crdp)` as an external call without effect on the private view, so the later plain
+reads of `default_call_rcu_data` see a stale NULL in the IR semantics). -/
+theorem call_rcu_after_fork_child_none_refines (l : List Nat) (on : Bool) (fuel : Nat) (env : Env) (inp : List Val)
+    (hh : env.priv (.glob "registered_rculfhash_atfork") = some (.int 0)) (hi : AfcNoneInp inp) :
+    ∃ out, exec fuel Gen.Src.«call_rcu_after_fork_child» env inp = .ok out ∧
+      ∃ ls', crun ⟨.acUnlock, l, on⟩ (out.events.filterMap (absEvC l)) = some ls' ∧
+        (out.ctl = .blocked ∨ (out.ctl = .ret none ∧ ls' = ⟨.idle, l, on⟩ ∧ out.events.length = 2 ∧
+          out.env.priv = env.priv)) := after_fork_child_none_exec l on fuel env inp hh hi
+
 /-- an event that writes a `flags` word -/
 def writesFlags : Event → Bool
   | .st (.field _ f) _ _ => f == "flags"
@@ -234,6 +248,53 @@ theorem urcu_bp_after_fork_child_tail_refines (fuel : Nat) (env : Env) (inp : Li
 example : Gen.Src.«bp.urcu_bp_after_fork_child» =
     .seq (.call none [] [] Gen.Src.«bp.urcu_bp_prune_registry») acTail := rfl
 
+/-- **`urcu_bp_prune_registry()`** from L2's `ac0`: for every private view whose arena fields are well-typed (`WFall`) and
+every oracle of NULLs / pointers (`AllGood`: chunk-list answers, opaque `pthread_t` values): never fails, for every loop
+budget; the events are `pruneFirst ; prune*` (L2's atomic `acPrune`, taken at the first event – nobody else runs in the
+child); a completed call has written nothing but `ctr` / `tid` / `alloc` / `used` fields (`Frame`).  Three nested loops:
+chunk list (oracle), slots `0 .. capacity-1` (private view), the `continue` wrapper. -/
+theorem urcu_bp_prune_registry_refines (fuel : Nat) (env : Env) (inp : List Val)
+    (hwf : WFall env.priv) (hg : AllGood inp) :
+    ∃ out, exec fuel Gen.Src.«bp.urcu_bp_prune_registry» env inp = .ok out ∧
+      ∃ pc', blr (.at .ac0) out.events = some pc' ∧ (out.ctl = .normal ∨ out.ctl = .blocked ∨ out.ctl = .fuel) ∧
+        (out.ctl = .normal → pc' = .at .ac1 ∧ WFall out.env.priv ∧ Frame env.priv out.env.priv) := by
+  obtain ⟨out, ho, pc', hl, hc, hq⟩ :=
+    tri_unfold (prune_tri env.priv fuel) env inp (.at .ac0) ⟨hwf, fun _ _ => rfl, hg, rfl⟩
+  exact ⟨out, ho, pc', hl, hc, fun h => by obtain ⟨h1, h2, -, h4⟩ := hq h; exact ⟨h4, h1, h2⟩⟩
+
+/-- **one slot of the prune** (`prSlot` = the body of the slot loop after `reader = &chunk->readers[spot_idx]`; it is a
+piece of the generated function: see the `example` below): a reader record is pruned (`ctr = tid = alloc = 0`,
+`cds_list_del(&reader->node)`, `chunk->used--`) **iff it is allocated and its `tid` is not what `pthread_self()` answers**;
+otherwise nothing is written and no list operation is performed -/
+theorem urcu_bp_prune_slot_effect (fuel : Nat) (env : Env) (c r : Loc) (av tv sv d : Val) (u : Int) (rest : List Val)
+    (hc : env.vars "chunk" = some (.ptr c)) (hr : env.vars "reader" = some (.ptr r))
+    (ha : env.priv (.field r "alloc") = some av) (ht : env.priv (.field r "tid") = some tv)
+    (hu : env.priv (.field c "used") = some (.int u)) :
+    ∃ out, exec fuel prSlot env (sv :: d :: rest) = .ok out ∧ out.ctl = .brk ∧
+      (if av.truthy = true ∧ tv ≠ sv then
+        out.events = [.ext "pthread_self" [] sv, .ext "cds_list_del" [.ptr (.field r "node")] d] ∧
+        out.env.priv (.field r "alloc") = some (.int 0) ∧ out.env.priv (.field r "tid") = some (.int 0) ∧
+        out.env.priv (.field r "ctr") = some (.int 0) ∧ out.env.priv (.field c "used") = some (.int (u - 1))
+       else
+        out.env.priv = env.priv ∧
+          out.events = if av.truthy = true then [.ext "pthread_self" [] sv] else []) :=
+  prSlot_effect fuel env c r av tv sv d u rest hc hr ha ht hu
+
+/-- `prSlot` is a piece of the generated `urcu_bp_prune_registry`: chunk loop ∋ slot loop ∋ `continue` wrapper = `reader := …; prSlot` -/
+example : Gen.Src.«bp.urcu_bp_prune_registry» = .seq prFirst (.loop prOuter) ∧ (splitSeq 4 prOuter).2 = .loop prMid ∧
+    prMid = .ifte prCond (.seq (.loop (.seq prReader prSlot)) prStep) .brk := ⟨rfl, rfl, rfl⟩
+
+/-- **`urcu_bp_after_fork_child()`** from L2's `ac0`, `m` = the content of `saved_fork_signal_mask`: never fails; events
+`pruneFirst ; prune* ; unlockRg ; unlockGp ; sigSet` (L2 `acPrune ; acRg ; acGp`); a completed call is at `idle` and the mask
+installed by its last event is the saved one -/
+theorem urcu_bp_after_fork_child_refines (fuel : Nat) (env : Env) (inp : List Val) (m : Val)
+    (hwf : WFall env.priv) (hg : AllGood inp) (hm : env.priv savedMask = some m) :
+    ∃ out, exec fuel Gen.Src.«bp.urcu_bp_after_fork_child» env inp = .ok out ∧
+      ∃ pc', blr (.at .ac0) out.events = some pc' ∧ (out.ctl = .normal ∨ out.ctl = .blocked ∨ out.ctl = .fuel) ∧
+        (out.ctl = .normal → pc' = .at .idle ∧ out.env.priv oldmask = some m ∧
+          out.events.getLast? = some (.ext "pthread_sigmask" [.int 2, .ptr oldmask, .int 0] (out.env.vars "ret").get!)) :=
+  bp_after_fork_child_exec fuel env inp m hwf hg hm
+
 /-- **mask_restored, source to L2**: composing `before_fork` and `after_fork_parent` on the private view: whatever `m` was
 handed back at entry is what `&oldmask` holds when the final `sigSet` is issued, provided `saved_fork_signal_mask` is not
 written in between (L2: `bp_frame`, it is protected by both locks) -/
@@ -327,6 +388,17 @@ theorem inpAfp_ok : AfpInp [3] inpAfp := by
 
 example := call_rcu_after_fork_parent_refines [3] false 3 env0 inpAfp (by simp [env0]) inpAfp_ok
 
+example := call_rcu_after_fork_child_none_refines [] false 1 env0 [.int 0, .int 1] (by simp [env0])
+  ⟨rfl, 1, by decide, rfl⟩
+
+example : ∃ out, exec 1 Gen.Src.«call_rcu_after_fork_child» env0 [.int 0, .int 1] = .ok out ∧
+    out.events = [.ext "pthread_mutex_unlock" [.ptr (.glob "call_rcu_mutex")] (.int 0),
+      .ext "cds_list_empty" [.ptr (.glob "call_rcu_data_list")] (.int 1)] ∧
+    out.events.filterMap (absEvC []) = [.unlock, .listEmpty true] ∧ out.ctl = .ret none := by
+  simp [Gen.Src.«call_rcu_after_fork_child», Gen.Src.«call_rcu_unlock», env0,
+    block, exec, eval, evalArgs, execPrim, bindParams, Env.setVar, Env.setPriv, setDst, asLoc, bind, Except.bind, evalBin,
+    evalUn, boolV, Val.truthy, absEvC, List.filterMap_cons, listHead, mutexLoc]
+
 /-- bp `before_fork`: 4 events, `fill ; sigBlock ; lockGp ; lockRg`, ends at `atFork` with the mask 5 saved -/
 example : ∃ out, exec 1 Gen.Src.«bp.urcu_bp_before_fork» env0 [.int 0, .int 0, .int 0, .int 0] = .ok out ∧
     out.events = [.ext "sigfillset" [.ptr (.glob "&newmask")] (.int 0),
@@ -353,6 +425,42 @@ example : ∃ out, exec 1 Gen.Src.«bp.urcu_bp_after_fork_parent» env0 [.int 0,
 
 example := urcu_bp_after_fork_parent_refines 1 env0 [.int 0, .int 0, .int 0] (.int 5) (by simp [env0, savedMask])
 example := urcu_bp_after_fork_child_tail_refines 1 env0 [.int 0, .int 0, .int 0] (.int 5) (by simp [env0, savedMask])
+
+/-- an arena where every object has `capacity = 2`, `used = 1`, every reader record is allocated with the `tid` of
+another thread; the saved mask is 5 -/
+def envA : Env where
+  vars _ := none
+  priv l := match l with
+    | .field _ f => if f = "capacity" then some (.int 2) else if f = "used" then some (.int 1)
+        else if f = "alloc" then some (.int 1) else if f = "tid" then some (.ptr (.tls "other")) else none
+    | .glob g => if g = "saved_fork_signal_mask" then some (.int 5) else none
+    | _ => none
+
+theorem envA_wf : WFall envA.priv :=
+  ⟨fun _ => 2, fun _ => 1, fun _ => .int 1, fun _ => .ptr (.tls "other"), by intro c; simp [envA]⟩
+
+/-- child with one chunk of two allocated records of another thread: both are pruned -/
+def inpAc : List Val :=
+  [.ptr (.obj 0), .int 0, .ptr (.tls "self"), .int 0, .ptr (.tls "self"), .int 0, .int 0, .int 0, .int 0]
+
+theorem inpAc_ok : AllGood inpAc := by
+  intro v hv
+  simp only [inpAc, List.mem_cons, List.not_mem_nil, or_false] at hv
+  rcases hv with rfl | rfl | rfl | rfl | rfl | rfl | rfl | rfl | rfl <;>
+    first | exact .inl rfl | exact .inr ⟨_, rfl⟩
+
+example := urcu_bp_after_fork_child_refines 3 envA inpAc (.int 5) envA_wf inpAc_ok (by simp [envA, savedMask])
+
+/-- 9 events: `pruneFirst`, `.next`, two records pruned (`pthread_self`, `cds_list_del` each), `unlockRg ; unlockGp ; sigSet` -/
+example : ∃ out, exec 3 Gen.Src.«bp.urcu_bp_after_fork_child» envA inpAc = .ok out ∧
+    out.events.filterMap absEvB = [.pruneFirst, .prune, .prune, .prune, .prune, .prune, .unlockRg, .unlockGp, .sigSet] ∧
+    blr (.at .ac0) out.events = some (.at .idle) ∧ out.env.priv oldmask = some (.int 5) ∧ out.ctl = .normal := by
+  have h10 : Int.repr 1 ≠ Int.repr 0 := by decide
+  have h01 : Int.repr 0 ≠ Int.repr 1 := by decide
+  simp [h10, h01, Gen.Src.«bp.urcu_bp_after_fork_child», Gen.Src.«bp.urcu_bp_prune_registry», Gen.Src.«bp.cleanup_thread», iterate,
+    inpAc, envA, block, exec, eval, evalArgs, execPrim, bindParams, Env.setVar, Env.setPriv, setDst, asLoc, bind, Except.bind,
+    evalBin, evalUn, boolV, Val.truthy, absEvB, List.filterMap_cons, blr, brun, bstep, oldmask, newmask, savedMask, gpLock,
+    rgLock, chunkList]
 
 /-- the local runs lift to L2 (`call_rcu_lift` along the labels of the first example): thread 0 of a 1-thread
 configuration, helper list `[3]`… here on the smallest L2 state where it is meaningful: after `createDflt` the list is
